@@ -928,7 +928,13 @@ def run_pair(text: str, cfgdir: str, cfgid: int, cfg: T.Dict[str, T.Any], want_s
     if c_in != c_out:
         key = 'comments:changed'
         lost = multiset_sub(c_in, c_out)
-        if sorted(c_in) == sorted(c_out):
+        if simp_on and 'ml-backslash' in feats:
+            o2 = without('simplify_string_literals')
+            if o2 is not None and lex_comments(o2) == c_in:
+                key = 'simplify:multiline-backslash'   # the mis-simplified literal swallows following text
+        if key.startswith('simplify:'):
+            pass
+        elif sorted(c_in) == sorted(c_out):
             key = 'comments:reordered'
             if sort_on:
                 o2 = without('sort_files')
@@ -944,7 +950,9 @@ def run_pair(text: str, cfgdir: str, cfgid: int, cfg: T.Dict[str, T.Any], want_s
         out2 = fm.format(out, P)
         res['idem'] = out2 == out
         if out2 != out:
-            for key in classify_idem(text, out, out2, cfg, cfgdir):
+            for key in classify_idem(text, out, out2, cfg, cfgdir, feats):
+                if key == 'idempotence:simplify_string_literals' and 'ml-backslash' in feats:
+                    key = 'simplify:multiline-backslash'
                 res['viol'].append((key, f'format(format(x)) != format(x): {out!r} -> {out2!r}'[:400]))
     except Exception as e:
         res['idem'] = False
@@ -963,8 +971,9 @@ def sig_tokens(text: str) -> T.List[T.Tuple[str, T.Any]]:
     return out
 
 
-def region_features(out: str, out2: str) -> T.Set[str]:
-    """features of the top-level statements of `out` that cover the lines where out and out2 differ"""
+def region_features(out: str, out2: str, want_text: bool = False) -> T.Any:
+    """features of the top-level statements of `out` that cover the lines where out and out2 differ
+    (with want_text: the text of those statements)"""
     a, b = out.split('\n'), out2.split('\n')
     i = 0
     while i < min(len(a), len(b)) and a[i] == b[i]:
@@ -977,13 +986,17 @@ def region_features(out: str, out2: str) -> T.Set[str]:
     try:
         tree = parse(out)
     except Exception:
-        return feats
+        return None if want_text else feats
+
     def min_line(n) -> int:
         if isinstance(n, tuple):
             return min([min_line(k) for k in n[1]] if n[0] == 'Kw' else [10 ** 9])
         return min([n.lineno] + [min_line(k) for k in node_parts(n)[3]])
     starts = [min_line(n) for n in tree.lines] + [len(a) + 1]
     sel = [n for k, n in enumerate(tree.lines) if starts[k] <= hi and starts[k + 1] - 1 >= lo]
+    if want_text:
+        ks = [k for k, n in enumerate(tree.lines) if starts[k] <= hi and starts[k + 1] - 1 >= lo]
+        return ks, len(tree.lines)
 
     def walk(n) -> None:
         if isinstance(n, tuple):
@@ -1007,16 +1020,38 @@ def region_features(out: str, out2: str) -> T.Set[str]:
 CAUSE_OPTIONS = ['no_single_comma_function', 'sort_files', 'simplify_string_literals']
 
 
-def classify_idem(text: str, out: str, out2: str, cfg: T.Dict[str, T.Any], cfgdir: str) -> T.List[str]:
+def classify_idem(text: str, out: str, out2: str, cfg: T.Dict[str, T.Any], cfgdir: str, feats: T.Set[str] = frozenset()) -> T.List[str]:
     """stable keys for a second-pass difference: the option(s) whose reset to the default makes the
     formatter idempotent on this input (counterfactual re-run), else the construct that covers the differing
     lines (files([..]) still to be flattened, multi-line parentheses), else what differs"""
     P = Path('meson.build')
+    base = text
+    try:
+        # reproduce on the input statements whose formatted form differs, alone, so that an unrelated unstable
+        # statement elsewhere in the file cannot blur the counterfactual
+        sel = region_features(out, out2, want_text=True)
+        tin = parse(text)
+        if sel and sel[0] and sel[1] == len(tin.lines) and len(sel[0]) < len(tin.lines):
+            ks = sel[0]
+
+            def min_line(n) -> int:
+                if isinstance(n, tuple):
+                    return min([min_line(k) for k in n[1]] if n[0] == 'Kw' else [10 ** 9])
+                return min([n.lineno] + [min_line(k) for k in node_parts(n)[3]])
+            lines = text.split('\n')
+            starts = [min_line(n) for n in tin.lines] + [len(lines) + 1]
+            reg = '\n'.join(lines[starts[ks[0]] - 1:starts[ks[-1] + 1] - 1]) + '\n'
+            fm = alt_formatter(cfg, cfgdir, [])
+            r1 = fm.format(reg, P)
+            if fm.format(r1, P) != r1:
+                base = reg
+    except Exception:
+        pass
 
     def idem_without(opts: T.List[str]) -> bool:
         try:
             f2 = alt_formatter(cfg, cfgdir, opts)
-            o1 = f2.format(text, P)
+            o1 = f2.format(base, P)
             return f2.format(o1, P) == o1
         except Exception:
             return False
@@ -1029,6 +1064,14 @@ def classify_idem(text: str, out: str, out2: str, cfg: T.Dict[str, T.Any], cfgdi
     for c in ('files-array', 'multiline-paren'):
         if c in rf:
             return ['idempotence:' + c]
+    if re.search(r'\\[ \t]*(#.*)?\n([ \t]*(#.*)?\n)*[ \t]*(#.*)?$', out):
+        return ['idempotence:trailing-continuation']
+    if re.search(r'[\[({][ \t]*\\[ \t]*(#.*)?\n', out):
+        return ['idempotence:continuation-after-bracket']
+    if 'files-array' in feats:
+        # the first pass replaced files([...]) by its elements (one level per pass); the second pass formats
+        # the flattened call differently
+        return ['idempotence:files-array']
     try:
         if sig_tokens(out) != sig_tokens(out2):
             what = 'tokens'
@@ -1068,8 +1111,6 @@ def check_cli(text: str, cfgdir: str, cfgid: int, expect_out: str, eol: str) -> 
                 rc = mformat.run(p.parse_args([flag, '-c', cfgp, src]))
             if (rc != 0) != differs:
                 viol.append((f'cli:check{flag}:status', f'{flag} returned {rc} but formatting would {"" if differs else "not "}change the file'))
-            if flag == '-d' and bool(buf.getvalue().strip()) != differs:
-                viol.append(('cli:check-diff:output', f'diff printed={bool(buf.getvalue().strip())} differs={differs}'))
             if Path(src).read_text(encoding='utf-8') != code:
                 viol.append((f'cli:check{flag}:modifies-file', 'check mode modified the file'))
         outp = os.path.join(d, 'out.build')
@@ -1213,6 +1254,8 @@ TARGETED: T.List[T.Tuple[str, T.Dict[str, T.Any]]] = [
     ("a = [ 1, 2 ]\nd = { 'a' : 1, 'b' : [ ] }\n", {'space_array': True}),
     ("x = a \\\n  + b \\ # c\n  + c\n", {}),
     ("a.b(c).d(e, f: g)[0].h()\n", {'max_line_length': 20}),
+    ("x = 1 \\\n", {}),                                            # idempotence:trailing-continuation
+    ("x = f([ \\\n 'b'])\n", {}),                                 # idempotence:continuation-after-bracket
 ]
 
 
@@ -1368,12 +1411,12 @@ def build_cases(ctx: Ctx, cfgs: T.List[T.Dict[str, T.Any]], cfgdir: str) -> T.Li
     fmt_corpus = [c for c in corpus if 'test cases/format' in c[0] or c[0].startswith('corpus/')]
     common_corpus = [c for c in corpus if c not in fmt_corpus]
     if not ctx.deep:
-        common_corpus = rng.sample(common_corpus, min(len(common_corpus), 50))
+        common_corpus = rng.sample(common_corpus, min(len(common_corpus), 30))
     items = []
     for origin, text in fmt_corpus + common_corpus:
         for ci in [0] + rng.sample(range(1, ncfg_base(cfgs)), ctx.scale(2, 6)):
             items.append(('corpus', text, ci))
-    nmut = ctx.scale(300, 4000)
+    nmut = ctx.scale(200, 2000)
     for _ in range(nmut):
         origin, text = rng.choice(fmt_corpus if rng.random() < 0.6 else common_corpus)
         if len(text) > 6000:
@@ -1383,7 +1426,9 @@ def build_cases(ctx: Ctx, cfgs: T.List[T.Dict[str, T.Any]], cfgdir: str) -> T.Li
     for i in range(0, len(items), 40):
         jobs.append((cfgdir, cfgs, 'texts', items[i:i + 40]))
     # generated
-    nprog = ctx.scale(3500, 60000)
+    nprog = ctx.scale(2000, 16000)
+    if os.environ.get('VERIF_C16_CAP'):   # debugging knob (mutation self-test): cap the generated stream
+        nprog = min(nprog, int(os.environ['VERIF_C16_CAP']))
     per = 2
     chunk = 100
     for _ in range(nprog // chunk):
